@@ -73,7 +73,7 @@ REGIMES = [
 ]
 
 
-def directed_ops(depth: int, width: int, rng) -> list[list[Cyc]]:
+def directed_ops(depth: int, width: int, rng, dense: bool = True) -> list[list[Cyc]]:
     """fill-drain, over/underflow, wrap-around at every pointer value, simultaneous
     read/write at full and empty, clear together with every other method combination."""
     v = Vals(rng, width)
@@ -89,7 +89,7 @@ def directed_ops(depth: int, width: int, rng) -> list[list[Cyc]]:
     seqs.append([RW(), RW(), ALL()] + [W() for _ in range(depth)] + [RW(), RW(), ALL(), ALL()] + [R] * (depth + 1))
     # wrap-around: advance the pointers to every position, fill to every level, single-step everything
     for start in range(depth):
-        for level in sorted({0, 1, depth // 2, max(depth - 1, 0), depth}):
+        for level in sorted({0, 1, depth // 2, max(depth - 1, 0), depth} if dense else {0, depth // 2, depth}):
             pre = []
             for _ in range(start):
                 pre += [W(), R]
